@@ -43,11 +43,14 @@
                                    opening character; the delimiter characters are not text DIRECTLY in the
                                    body of a delimited argument (they are inside its braced children)
 
-    NOT covered (rest of stage (d), stages (e5)-(e6)):
+                                   (stage (e5)) a mandatory argument may also be ONE TOKEN: a character
+                                   [Text2 ws [c]], a control sequence [Mac2 ws name post []] (its own
+                                   arguments are not parsed), a specials sequence [Spc2 ws chars []]
+
+    NOT covered (rest of stage (d), stage (e6)):
     a paragraph break followed by indentation or directly after a control word /
     comment, paragraph-break whitespace in a context without the [\n\n] specials,
-    a comment ending at the end of input, single-token arguments, comments before an
-    argument, a delimited argument directly nested in the body of another one,
+    a comment ending at the end of input, comments before an argument, a delimited argument directly nested in the body of another one,
     verbatim (macro, environments, argument kind).
 
     Full statement (kept for reference, not proved):
@@ -413,3 +416,35 @@ Example C02_optional_arguments_side_conditions_needed :
   (ok_doc2 default_ctx bad2 = false /\ differs bad2 = true) /\
   (ok_doc2 default_ctx bad3 = false /\ differs bad3 = true).
 Proof. vm_compute. repeat split. Qed.
+
+(** single-token arguments (stage (e5)):
+    [\textbf a\frac12 \textbf\alpha b\textbf ~\frac \alpha\beta\sqrt x\frac{1} 2\textbf\frac12$\frac a\n&$]
+    — a character, two characters for two slots, a control sequence (with its
+    post-space), a specials sequence, an absent bracket argument followed by a character,
+    a group then a character with whitespace in front, a control sequence whose own
+    arguments are NOT parsed ([\textbf\frac12]: the argument is [\frac] alone), and in
+    math mode a specials sequence on the next line *)
+Example C02_single_token_arguments_nonvacuous :
+  let textbf := [116;101;120;116;98;102] in let frac := [102;114;97;99] in
+  let alpha := [97;108;112;104;97] in let sqrt := [115;113;114;116] in
+  let d := {| d_items2 :=
+       [Mac2 [] textbf [32] [Text2 [] [97]];
+        Mac2 [] frac [] [Text2 [] [49]; Text2 [] [50]];
+        Mac2 [32] textbf [] [Mac2 [] alpha [32] []];
+        Text2 [] [98];
+        Mac2 [] textbf [32] [Spc2 [] [126] []];
+        Mac2 [] frac [32] [Mac2 [] alpha [] []; Mac2 [] [98;101;116;97] [] []];
+        Mac2 [] sqrt [32] [Abs2; Text2 [] [120]];
+        Mac2 [] frac [] [Grp2 [] [Text2 [] [49]] []; Text2 [32] [50]];
+        Mac2 [] textbf [] [Mac2 [] frac [] []]; Text2 [] [49;50];
+        Math2 [] MDollar [Mac2 [] frac [32] [Text2 [] [97]; Spc2 [10] [38] []]] []];
+     d_trail2 := [] |} in
+  let bad := {| d_items2 := [Mac2 [] textbf [] [Mac2 [] alpha [] []]; Text2 [] [98]]; d_trail2 := [] |} in
+  (ok_doc2 default_ctx d = true /\
+   parse_top (unparse2 d) false default_ctx (walker_state default_ctx) = doc_result2 default_ctx d /\
+   length (unparse2 d) = 100%nat /\
+   length (fst (tree_of2 default_ctx (walker_state default_ctx) 0 d)) = 12%nat) /\
+  (* [\textbf\alpha] directly followed by the letter [b] is [\textbf\alphab] *)
+  (ok_doc2 default_ctx bad = false /\
+   parse_top (unparse2 bad) false default_ctx (walker_state default_ctx) <> doc_result2 default_ctx bad).
+Proof. vm_compute. repeat split. discriminate. Qed.
